@@ -236,7 +236,7 @@ impl Report {
                 std::fs::write(evdir.join(format!("{}.json", self.property)), serde_json::to_string_pretty(&ev).unwrap()).expect("write evidence");
             }
         }
-        eprintln!("[{}] {} tier: states={} transitions={} distinct={} violations={} known={} wall={:.1}s exhaustive={}", self.property, self.tier, states, transitions, distinct, viol_by_sig.len(), known_all.len(), wall, exhaustive);
+        eprintln!("[{}] {} tier: states={} transitions={} distinct={} violations={} known={} wall={:.1}s exhaustive={}", self.property, self.tier, states, transitions, distinct, viol_by_sig.len() as u64 + child_violations, known_all.len(), wall, exhaustive);
         // a confirmed, replayable violation is a verdict even if cross-checks also complain
         // (their complaints are usually its consequence); without one, machinery errors decide
         if !viol_by_sig.is_empty() || child_violations > 0 {
